@@ -160,5 +160,11 @@ def relations(rng, tier, rpt):
         got = SplToken.FindPda(seeds, prog)
         if got != want:
             rep("FindPda is not the first off-curve SHA-256 PDA from bump 255 downward", prog, got, str(want))
+        # the caller's seeds are an input, not scratch space: the same list asked again answers alike and is left as it was
+        kept = list(seeds)
+        again = opt(lambda: SplToken.FindPda(seeds, prog))
+        if again != want or seeds != kept:
+            rep("FindPda on the same seeds list a second time answers differently / changes the caller's list",
+                "%s seeds=%s" % (prog, [x.hex() for x in kept]), "again=%s list-now=%d items" % (again, len(seeds)), str(want))
     rpt.extra["impl_relation_checks"] = n
     return bad[:6]
